@@ -192,6 +192,11 @@ func (pb *PrimaryBlock) UnmarshalCbor(r io.Reader) error {
 		pb.BundleControlFlags = BundleControlFlags(bcf)
 	}
 
+	// The fragment offset and total data length are present if and only if the bundle is a fragment.
+	if hasFragmentFields := blockLen == 10 || blockLen == 11; hasFragmentFields != pb.HasFragmentation() {
+		return fmt.Errorf("array with %d elements does not match the fragment flag", blockLen)
+	}
+
 	if crcT, err := cboring.ReadUInt(r); err != nil {
 		return err
 	} else if crcT > uint64(CRC32) {
